@@ -8,9 +8,14 @@
     sequences until the canonical cache-state space closes,
 (d) every list of <=3 styled segments x length x pad x pad-style x newline flag
     through split_and_crop_lines / adjust_line_length / set_shape / split_lines /
-    simplify.
+    simplify,
+(e) two threads measuring at once on COLD module state (every execution in a fork of a zygote that never
+    called rich.cells), every interleaving of the executed lines with <= bound preemptions.
+Callers own what they are handed: every returned list is clobbered after it was judged, and the same call is
+made again (parts b, c2, d).
 """
 import itertools
+import sys
 
 from ..par import Result, deadline_passed
 from ..width import cw, sw, table, table_problems
@@ -35,6 +40,9 @@ def plan(tier, seed):
     shards += [{"part": "c2", "i": i, "n": 8} for i in range(8)]
     nd = 16 if tier == "quick" else 32
     shards += [{"part": "d", "i": i, "n": nd} for i in range(nd)]
+    for hid in E_ORDER:
+        ne = 4 if tier == "quick" else 8
+        shards += [{"part": "e", "h": hid, "bound": _e_bound(hid, tier), "i": i, "n": ne} for i in range(ne)]
     return shards
 
 
@@ -80,13 +88,29 @@ def check_string(s, res, sizes, widths):
             res.violate("set_cell_size/" + err[0], {"part": "b", "s": s, "n": n}, "%r -> %r: %s" % (s, out, err[1]))
         res.sig(("scs", ref < n, ref == n, out.endswith(" ") and not s.endswith(" ")), nontrivial=ref != n)
     for w in widths:
-        pieces = chop_cells(s, w)
+        raw = chop_cells(s, w)
+        pieces = list(raw)
         res.evaluations += 1
         if "".join(pieces) != s:
             res.violate("chop_cells/concat", {"part": "b", "s": s, "w": w}, "%r -> %r" % (s, pieces))
         elif any(sw(p) > w for p in pieces):
             res.violate("chop_cells/fit", {"part": "b", "s": s, "w": w}, "%r -> %r" % (s, pieces))
+        # the caller owns what it was handed: clobbering it must not change what the next caller gets
+        _clobber(raw)
+        again = list(chop_cells(s, w))
+        if again != pieces:
+            res.violate("chop_cells/result-aliased", {"part": "b", "s": s, "w": w},
+                        "first call %r; after the caller changed its list the same call gives %r" % (pieces, again))
         res.sig(("chop", min(len(pieces), 4)), nontrivial=len(pieces) > 1)
+
+
+def _clobber(obj):
+    """What a caller may do with a returned list: empty it (recursively) and leave junk in it."""
+    if isinstance(obj, list):
+        for x in obj:
+            _clobber(x)
+        del obj[:]
+        obj.append("\x00clobbered")
 
 
 def _judge_set_cell_size(s, n, out):
@@ -220,9 +244,12 @@ def _run_history2(hist, res=None):
     """Replays a history on the emptied default cache; after every event every string seen so far
     (menu strings and produced pieces) is re-measured. -> (violations, canon)"""
     from rich.cells import cell_len, chop_cells, set_cell_size, _get_codepoint_cell_size
+    import rich.cells
     cache = _default_cache()
     cache.clear()
-    _get_codepoint_cell_size.cache_clear()
+    for fn in list(vars(rich.cells).values()):      # every memo the module keeps, whatever it is called
+        if callable(getattr(fn, "cache_clear", None)):
+            fn.cache_clear()
     seen = list(C2_STRINGS)
     vio = []
     for ev in hist:
@@ -231,10 +258,12 @@ def _run_history2(hist, res=None):
             if got != sw(ev[1]):
                 vio.append(("cache-history/result-changed/cell_len", "cell_len(%r)=%r reference %r" % (ev[1], got, sw(ev[1]))))
         elif ev[0] == "chop":
-            pieces = chop_cells(ev[1], ev[2], ev[3])
+            raw = chop_cells(ev[1], ev[2], ev[3])
+            pieces = list(raw)
             if "".join(pieces) != ev[1]:
                 vio.append(("cache-history/chop_cells/concat", "%r -> %r" % (ev, pieces)))
             seen += [p for p in pieces if p not in seen]
+            _clobber(raw)
         else:
             out = set_cell_size(ev[1], ev[2])
             err = _judge_set_cell_size(ev[1], ev[2], out)
@@ -248,7 +277,8 @@ def _run_history2(hist, res=None):
                 vio.append(("cache-history/result-changed/after-%s" % ev[0],
                             "after %r: cell_len(%r)=%r reference %r" % (ev, t, got, sw(t))))
                 break
-    canon = tuple(sorted((k, v) for k, v in cache.items()))
+    canon = (tuple(sorted((k, v) for k, v in cache.items())),
+             tuple(sorted(set(map(repr, (e for e in hist if e[0] != "len"))))))
     return vio, canon
 
 
@@ -267,7 +297,7 @@ def _part_c2(sh, tier, res):
         res.evaluations += 1
         for key, detail in vio:
             res.violate(key, {"part": "c2", "history": [list(e) for e in hist]}, detail)
-        res.sig(("c2", hist[-1][0], len(canon) if len(canon) < 6 else 6), nontrivial=len(hist) > 1)
+        res.sig(("c2", hist[-1][0], len(canon[0]) if len(canon[0]) < 6 else 6), nontrivial=len(hist) > 1)
         if vio or len(hist) >= maxdepth or canon in seen:
             continue
         seen.add(canon)
@@ -447,13 +477,23 @@ def check_segments(desc, length, pad, padname, incl, res, styles=None):
             if g != r:
                 res.violate("split_lines/content", dict(case, fn="split_lines"), "line %r reference %r" % (g, r))
                 break
+    _clobber(got)       # callers own returned lists (the same arguments come round again in the loops)
 
     # split_and_crop_lines -- judged twice: lines copied as they are produced (a streaming consumer such as
     # Console.print) and all lines collected first (Console.render_lines does list(...)): a line that is
     # still the generator's work buffer looks right while streaming and wrong once collected
     for mode in ("streamed", "collected"):
         gen = Segment.split_and_crop_lines(list(segs), length, style=padstyle, pad=pad, include_new_lines=incl)
-        got = [list(l) for l in gen] if mode == "streamed" else [list(l) for l in list(gen)]
+        raw = []
+        if mode == "streamed":
+            got = []
+            for l in gen:
+                raw.append(l)
+                got.append(list(l))
+        else:
+            raw = list(gen)
+            got = [list(l) for l in raw]
+        _clobber(raw)
         res.evaluations += 1
         sfx = "" if mode == "streamed" else "/collected"
         kcase = dict(case, fn="split_and_crop_lines", mode=mode)
@@ -487,6 +527,7 @@ def check_segments(desc, length, pad, padname, incl, res, styles=None):
             out = Segment.adjust_line_length(list(rl_real), length, style=padstyle, pad=pad)
             res.evaluations += 1
             err = _judge_line(rl, _flatten_real(out), length, pad, padstyle, styles)
+            _clobber(out)
             if err:
                 res.violate("adjust_line_length/" + err[0], dict(case, fn="adjust_line_length"), err[1])
                 break
@@ -535,6 +576,194 @@ def _part_d(sh, tier, res):
             res.sample({"part": "d", "segs": [list(d) for d in desc]})
 
 
+
+# ------------------------------------------------------------------ (e) threads on cold module state (E3)
+# Two real threads measure text at the same time.  Every execution runs in a fork of a zygote that imported
+# rich.cells but never called it (vf/cold.py), so whatever the module builds lazily -- the code point memo,
+# the measured-string cache, any index derived from the table on first use -- is cold, and both threads can
+# be "the first caller".  vf/sched.py enumerates every interleaving of the executed lines of rich.cells and
+# rich._lru_cache with <= bound preemptions.  Oracle: each thread's result, and the same question asked again
+# after both finished (what stays in the memos), equal the linear table scan.
+E_OPS = {
+    "len-a": ("cell_len", "あaい"),
+    "len-b": ("cell_len", "́bう😽"),
+    "len-same": ("cell_len", "ああ"),
+    "size": ("set_cell_size", "あいう", 3),
+    "chop": ("chop_cells", "あいうa", 3),
+    "char": ("get_character_cell_size", "😽"),
+    "char2": ("get_character_cell_size", "́"),
+}
+E_HARNESS = {
+    # id: (ops of thread A, ops of thread B, prefill the measured-string cache to capacity first)
+    "first-lookups": (["len-a"], ["len-b"], False),
+    "same-string": (["len-same"], ["len-same"], False),
+    "char-vs-len": (["char"], ["len-a"], False),
+    "size-vs-chop": (["size"], ["chop"], False),
+    "zero-vs-wide": (["char2"], ["char"], False),
+    "full-cache": (["len-a"], ["len-b"], True),
+    "two-each": (["char", "len-b"], ["len-a", "char2"], False),
+}
+E_ORDER = ("first-lookups", "char-vs-len", "zero-vs-wide", "same-string", "size-vs-chop", "full-cache", "two-each")
+E_MAX_EXECS = 6000
+E_STOP_AFTER_VIOLATIONS = 8
+
+
+def _e_bound(hid, tier):
+    if tier == "thorough":
+        return 1 if hid in ("full-cache", "two-each") else 2
+    return 1
+
+
+def _e_setup():
+    """in the zygote: scheduler installed, LINE events on for every code object of the modules under test;
+    nothing here measures a character"""
+    import rich.cells
+    import rich._lru_cache
+    from .. import sched
+    sched.install()
+    for mod in (rich.cells, rich._lru_cache):
+        for co in sched._code_objects(mod):
+            sys.monitoring.set_local_events(sched.TOOL, co, sys.monitoring.events.LINE)
+    sched.SKIP_CODES = frozenset()
+
+
+def _e_call(op):
+    import rich.cells
+    out = getattr(rich.cells, op[0])(*op[1:])
+    return list(out) if isinstance(out, list) else out
+
+
+def _e_ref(op):
+    if op[0] == "cell_len":
+        return sw(op[1])
+    if op[0] == "get_character_cell_size":
+        return cw(op[1])
+    return None
+
+
+def _e_judge_value(op, got):
+    """-> error text or None"""
+    if isinstance(got, BaseException):
+        return "raised %r" % (got,)
+    if op[0] in ("cell_len", "get_character_cell_size"):
+        return None if got == _e_ref(op) else "%s(%r) = %r, table scan says %r" % (op[0], op[1], got, _e_ref(op))
+    if op[0] == "set_cell_size":
+        err = _judge_set_cell_size(op[1], op[2], got)
+        return None if err is None else "set_cell_size(%r, %d) = %r: %s" % (op[1], op[2], got, err[1])
+    if "".join(got) != op[1]:
+        return "chop_cells(%r, %d) = %r does not concatenate to the text" % (op[1], op[2], got)
+    if any(sw(p) > op[2] for p in got):
+        return "chop_cells(%r, %d) = %r has a piece wider than %d" % (op[1], op[2], got, op[2])
+    return None
+
+
+def _e_make(hid):
+    ops_a, ops_b, prefill = E_HARNESS[hid]
+
+    def make(s):
+        if prefill:
+            import rich.cells
+            cache = rich.cells.cell_len.__defaults__[0]
+            n = getattr(cache, "cache_size", 4096)
+            for i in range(n):
+                cache["p%05d" % i] = 6          # ASCII keys with their true widths: the table path stays cold
+        out = {"A": [], "B": []}
+
+        def runner(tid, ops):
+            def run():
+                for name in ops:
+                    try:
+                        out[tid].append(_e_call(E_OPS[name]))
+                    except Exception as e:          # judged, not propagated: the next op still runs
+                        out[tid].append(e)
+            return run
+
+        def observe():
+            again = {}
+            for tid, ops in (("A", ops_a), ("B", ops_b)):
+                again[tid] = []
+                for name in ops:
+                    try:
+                        again[tid].append(_e_call(E_OPS[name]))
+                    except Exception as e:
+                        again[tid].append(e)
+            return {"got": out, "again": again}
+        return {"A": runner("A", ops_a), "B": runner("B", ops_b)}, observe
+    return make
+
+
+def _e_child(hid, prefix):
+    from .. import sched, cold
+    s, obs = sched.run_once(_e_make(hid), prefix, "line", 0)
+    ops_a, ops_b, _ = E_HARNESS[hid]
+    vio = []
+    if s.problem:
+        vio.append(("threads/%s" % s.problem.split(":")[0], s.problem))
+    for tid, e in s.errors:
+        vio.append(("threads/exception/%s" % type(e).__name__, "thread %s raised %r" % (tid, e)))
+    for tid, ops in (("A", ops_a), ("B", ops_b)):
+        got = obs["got"][tid]
+        if len(got) != len(ops) and not s.problem:
+            vio.append(("threads/no-result", "thread %s finished %d of %d operations" % (tid, len(got), len(ops))))
+        for name, g in zip(ops, got):
+            err = _e_judge_value(E_OPS[name], g)
+            if err:
+                kind = "exception" if isinstance(g, BaseException) else "wrong-result"
+                vio.append(("threads/%s/%s" % (kind, E_OPS[name][0]), "thread %s: %s" % (tid, err)))
+        for name, g in zip(ops, obs["again"][tid]):
+            err = _e_judge_value(E_OPS[name], g)
+            if err:
+                vio.append(("threads/memoised-wrong/%s" % E_OPS[name][0],
+                            "asked again after both threads finished: %s" % err))
+    dev = s.deviations_before(len(s.choices))
+    sig = ("e", hid, min(dev, 3), bool(vio))
+    return cold.record_of(s, sig=sig, vio=vio)
+
+
+def _part_e(sh, tier, res):
+    from .. import cold
+    hid, bound = sh["h"], sh["bound"]
+    zy = cold.Zygote("vf.checks.c13", "_e_setup")
+    bad = [0]
+
+    def on_exec(rec):
+        res.evaluations += 2 * (len(E_HARNESS[hid][0]) + len(E_HARNESS[hid][1]))
+        res.sig(rec["sig"], nontrivial=rec["sig"][2] > 0)
+        res.count("choice_points", len(rec["choices"]))
+        if rec["vio"]:
+            bad[0] += 1
+            ch = list(rec["choices"])
+            while ch and ch[-1] == 0:
+                ch.pop()
+            for key, detail in rec["vio"]:
+                res.violate(key, {"part": "e", "h": hid, "choices": ch}, detail)
+        return bad[0] < E_STOP_AFTER_VIOLATIONS
+    try:
+        st = cold.explore_cold(lambda prefix: zy.call("_e_child", hid, prefix), bound, on_exec,
+                               stop=deadline_passed, max_execs=E_MAX_EXECS, shard=(sh["i"], sh["n"]))
+    finally:
+        zy.close()
+    res.count("schedules", st["executions"])
+    res.counters["max_choice_points_per_schedule"] = max(res.counters.get("max_choice_points_per_schedule", 0),
+                                                         st["max_choice_points"])
+    if not st["complete"] and not bad[0]:
+        res.capped = True
+    if sh["i"] == 0:
+        res.count("threads_harness:%s:b%d" % (hid, bound))
+        res.sample({"part": "e", "harness": hid, "A": E_HARNESS[hid][0], "B": E_HARNESS[hid][1], "bound": bound}, limit=1)
+
+
+def _replay_e(case, res):
+    from .. import cold
+    zy = cold.Zygote("vf.checks.c13", "_e_setup")
+    try:
+        rec = zy.call("_e_child", case["h"], list(case["choices"]))
+    finally:
+        zy.close()
+    for key, detail in rec["vio"]:
+        res.violate(key, case, detail)
+
+
 # ------------------------------------------------------------------ protocol
 def run_shard(sh, tier, seed):
     res = Result()
@@ -551,6 +780,8 @@ def run_shard(sh, tier, seed):
         _part_c2(sh, tier, res)
     elif p == "d":
         _part_d(sh, tier, res)
+    elif p == "e":
+        _part_e(sh, tier, res)
     return res
 
 
@@ -563,8 +794,12 @@ def describe(tier, seed, res):
                 "{cell_len, chop_cells(s, w, position), set_cell_size} on the shared default cache (depth 3 quick / 4 thorough), "
                 "every string seen so far re-measured after every event; (d) all lists of <=3 segments over "
                 "8 texts x 3 styles + 2 control segments (third position reduced in quick) x length 0..6 x pad x pad style x "
-                "include_new_lines. A case is non-trivial when the operation actually crops, pads, splits, or re-measures "
-                "a string measured earlier; distinct = distinct outcome signatures." % _maxlen(tier),
+                "include_new_lines; every returned list is clobbered after judging and chop_cells is called again (aliasing); "
+                "(e) E3 on cold module state: harnesses %s, two real threads calling cell_len / get_character_cell_size / "
+                "set_cell_size / chop_cells on wide and zero-width text, every execution in a fork of a zygote that never "
+                "called rich.cells, all interleavings of executed lines of rich.cells + rich._lru_cache with <=1 preemption "
+                "(<=2 thorough), results and re-queries against the table scan. A case is non-trivial when the operation actually crops, pads, splits, or re-measures "
+                "a string measured earlier; distinct = distinct outcome signatures." % (_maxlen(tier), ", ".join(E_ORDER)),
         "assumptions": [
             "width oracle = Rich's CELL_WIDTHS data scanned linearly (table content is trusted, lookup/arithmetic is judged)",
             "set_cell_size is required to keep the longest prefix that fits (a single space only where a wide character was halved)",
@@ -594,10 +829,12 @@ def replay(case):
     elif p == "d":
         check_segments([tuple(d) for d in case["segs"]], case["length"], case["pad"], case["padstyle"],
                        case["incl"], res)
+    elif p == "e":
+        _replay_e(case, res)
     return [(k, v[2]) for k, v in sorted(res.violations.items())]
 
-ENGINE = "E1+E2"
-TECHNIQUE = "bounded-exhaustive enumeration on the real code (all code points; all strings/segment lists in scope) + explicit-state BFS over cache histories, judged by an independent width/line reference model"
+ENGINE = "E1+E2+E3"
+TECHNIQUE = "bounded-exhaustive enumeration on the real code (all code points; all strings/segment lists in scope) + explicit-state BFS over cache histories + preemption-bounded schedule enumeration of two measuring threads on cold module state, judged by an independent width/line reference model"
 LEVEL_TEXT = ("Every code point, every string over a mixed-width alphabet up to the length bound with every target size, "
               "every segment list in scope and every cache history until the cache-state space closes is executed on the "
               "real functions and compared with a reference computed from the raw width table. Exhaustive inside the stated "
